@@ -3,8 +3,9 @@ offsets the EVM can possibly reach in that code (Cfg!MayReach, computed from the
 with constant targets, no loops and generous limits exactly those.
    Inv_C08_Edge/cfg   an executed offset the EVM cannot reach
    Inv_C08_Both/cfg   an EVM-reachable offset the VM did not execute (exact programs only)
-Programs longer than a few hundred bytes are left out: the acceptor's cost grows quadratically with the code length
-(measured: three programs of 24 600 bytes did not finish in 15 minutes)."""
+Programs longer than a few hundred bytes are left out of the quick tier: the acceptor's cost grows faster than
+quadratically with the code length (measured: one program of 24 600 bytes takes 5-12 minutes); the thorough tier runs
+two programs longer than 24 576 bytes whose jumps aim at and beyond that offset."""
 import json
 import os
 
@@ -19,7 +20,8 @@ def run(tier, seed):
         return json.load(open(cache))
     wd = workdir("cfg")
     tp = os.path.join(wd, "cfg.ndjson")
-    p = harness(["cfg-trace", "--seed", seed, "--programs", 4000 if tier == "thorough" else 600, "--long", 0, "--out", tp], timeout=1200)
+    p = harness(["cfg-trace", "--seed", seed, "--programs", 4000 if tier == "thorough" else 600,
+                 "--long", 2 if tier == "thorough" else 0, "--out", tp], timeout=1200)
     info = json.loads(p.stdout.strip().splitlines()[-1])
     tv = validate_trace("CfgTrace", tp, timeout=3000)
     if tv.matched < tv.records:
